@@ -4095,6 +4095,30 @@ impl<'a> Parser<'a> {
                 }
             }
 
+            // Import type: import("module"), import("module").Name<T>
+            TokenKind::Import => {
+                self.advance();
+                self.require_token(&TokenKind::LParen)?;
+                self.parse_string_literal()?;
+                self.require_token(&TokenKind::RParen)?;
+                let mut qualified = String::from("import");
+                while self.match_token(&TokenKind::Dot) {
+                    self.chain_step()?;
+                    qualified.push('.');
+                    qualified.push_str(self.parse_identifier_name()?.name.as_str());
+                }
+                let name = Identifier {
+                    name: self.intern(&qualified),
+                    span: self.span_from(start),
+                };
+                let type_arguments = self.parse_optional_type_arguments()?;
+                Ok(TypeAnnotation::Reference(TypeReference {
+                    name,
+                    type_arguments,
+                    span: self.span_from(start),
+                }))
+            }
+
             // Polymorphic this type
             TokenKind::This => {
                 let name = Identifier {
@@ -4262,6 +4286,10 @@ impl<'a> Parser<'a> {
             // typeof
             TokenKind::Typeof => {
                 self.advance();
+                // typeof import("module")
+                if self.check(&TokenKind::Import) {
+                    return self.parse_type_operand();
+                }
                 // Entity name with optional type arguments: typeof x, typeof a.b.c, typeof f<T>
                 let id = if self.check(&TokenKind::This) {
                     self.parse_identifier_name()?
